@@ -289,6 +289,32 @@ def repair_asboolean(orig, rend, ast):
     return ''.join(out) if changed else None
 
 
+def repair_cast_label(orig, rend, ast):
+    """SQLAlchemy labels `CAST(col AS T)` in a select list with the column's own name; give such labels another name
+    (only labels the original text does not contain)"""
+    out, i, changed = [], 0, False
+    up = rend.upper()
+    pos = up.find('CAST(')
+    while pos >= 0:
+        depth, j = 0, pos + 4
+        while j < len(rend):
+            if rend[j] == '(':
+                depth += 1
+            elif rend[j] == ')':
+                depth -= 1
+                if depth == 0:
+                    break
+            j += 1
+        m = re.match(r' AS ("?)(\w+)\1', rend[j + 1:])
+        if m and m.group(2) in ('a', 'b', 'c', 'p', 'q') and not re.search(r'\bAS\s+%s\b' % m.group(2), orig, re.I) and j + 1 >= i:
+            out.append(rend[i:j + 1] + ' AS %s_cast' % m.group(2))
+            i = j + 1 + m.end()
+            changed = True
+        pos = up.find('CAST(', max(j, pos + 1))
+    out.append(rend[i:])
+    return ''.join(out) if changed else None
+
+
 def repair_not_is(orig, rend, ast, R=None):
     """NOT (a IS b) == a IS NOT b: re-render the equivalent statement"""
     from mindsdb_sql.parser import ast as A
@@ -371,6 +397,7 @@ REPAIRS = collections.OrderedDict([
     ('truediv', repair_truediv),
     ('string-plus', repair_string_plus),
     ('double-minus', repair_double_minus),
+    ('cast-label', repair_cast_label),
     ('asboolean-grouping', repair_asboolean),
     ('case-alias', repair_case_alias),
 ])
@@ -491,7 +518,7 @@ def kf_cases():
     for k in src:
         w = k.get('witness') or {}
         if w.get('text'):
-            out.append(dict(kind=w.get('kind', 'select'), text=w['text'], ordered=w.get('ordered', False), alias=w.get('alias', []),
+            out.append(dict(kind=w.get('kind', 'select'), text=w['text'], ordered=w.get('ordered', False), alias=w.get('alias', []), order_keys=w.get('order_keys'),
                             feats=['kf-witness:' + k['id']], ast=w.get('ast')))
     return out
 
